@@ -36,7 +36,7 @@ FLOORS = {
     "quick": {"steps": 20000, "queries": 100000, "commute_checks": 2000, "rejections": 3000,
               "kind_ext": 1000, "kind_branch": 1000, "kind_mixed": 1000, "kind_leaf": 1000, "kind_mark": 500,
               "public_enumerations": 20000, "nested_with_3_lengths": 100, "nested_parent_not_shortest": 50,
-              "kind_selfseg": 500},
+              "kind_selfseg": 500, "kind_texty": 100, "mark_unknown_among_known": 300},
     "thorough": {"steps": 200000, "queries": 1000000, "commute_checks": 20000, "rejections": 30000,
                  "kind_ext": 10000, "kind_branch": 10000, "kind_mixed": 10000, "kind_leaf": 10000,
                  "kind_mark": 5000, "public_enumerations": 200000, "nested_with_3_lengths": 1000,
@@ -216,6 +216,14 @@ def run_case(case, ctx):
                     r = cut(fog.mark_all_complete, [sm[0], cand], expect=(Exception,))
                     if not isinstance(r, Raised):
                         raise Violation("fog-invalid-accepted", "mark_all_complete([member, unknown]) was accepted")
+                if len(sm) >= 2:
+                    # an unknown prefix hidden between known ones, in every position
+                    for lst in ([sm[0], cand, sm[-1]], [sm[0], sm[-1], cand], [cand, sm[0], sm[-1]],
+                                sorted([sm[0], cand, sm[-1]]), list(sm) + [cand], list(sm[:-1]) + [cand]):
+                        r = cut(fog.mark_all_complete, lst, expect=(Exception,))
+                        if not isinstance(r, Raised):
+                            raise Violation("fog-invalid-accepted", "mark_all_complete(%r) with the unknown prefix %r was accepted" % (lst, cand))
+                    ctx.count("mark_unknown_among_known")
                 nf = fog
                 ctx.count("rejections")
         else:
@@ -271,6 +279,18 @@ def gen_nested(rnd):
     return segs
 
 
+# the serialisation is text (a repr of byte strings inside a list): nibble strings that spell
+# its own punctuation are the classic way to confuse it
+TEXTY = [b"HexaryTrieFog:", b"'", b'"', b"\\", b"b'", b"]", b"[", b",", b", ", b"\n", b"\\x", b"b'']", b"HexaryTrieFog:[]"]
+
+
+def texty_segment(rnd):
+    t = rnd.choice(TEXTY)
+    if rnd.random() < 0.5:
+        t = bytes([rnd.randrange(256)]) + t + bytes([rnd.randrange(256)])
+    return [n for b in t for n in (b >> 4, b & 15)]
+
+
 def gen_case(rnd, maxsteps=12):
     steps = []
     for _ in range(rnd.randint(1, maxsteps)):
@@ -282,6 +302,8 @@ def gen_case(rnd, maxsteps=12):
         elif kind == "selfseg":
             # the single EMPTY continuation: the prefix is replaced by itself, nothing changes
             steps.append(["explore", i, [[]], "selfseg"])
+        elif kind == "ext" and rnd.random() < 0.15:
+            steps.append(["explore", i, [texty_segment(rnd)], "texty"])
         elif kind == "ext":
             steps.append(["explore", i, [[rnd.randrange(16) for _ in range(rnd.randint(1, 4))]], "ext"])
         elif kind == "branch":
